@@ -99,6 +99,40 @@ def h_pure(ctx: Ctx, cfg):
         ctx.require(OT.struct_eq(p1, p2), "purity:same-genotype-maps-to-different-programs", lambda: {"first": OT.show(p1), "second": OT.show(p2)})
 
 
+def h_fresh_vs_used(ctx: Ctx, cfg):
+    """the program a genotype maps to is determined by the genotype and the grammar alone: a
+    representation object that has already mapped another genotype (possibly failing on it) maps
+    the next one to the same program as a brand-new representation object does"""
+    fx, g = synth.make_grammar(ctx, cfg)
+    creator = FreshRandom(ctx, "creator")
+    used = synth.make_rep(cfg, g, SharedRandom(ctx))
+    fresh = synth.make_rep(cfg, g, SharedRandom(ctx))
+    a = synth.fuel_genes(ctx, cfg, used.create_genotype(creator))
+    b = used.create_genotype(creator)
+    first_failed = False
+    try:
+        used.genotype_to_phenotype(a)
+    except synth.LIBRARY_ERRORS:
+        first_failed = True
+    ctx.note("first_mapping_failed", first_failed)
+    import copy
+
+    b1 = synth.fuel_genes(ctx, cfg, copy.copy(b))
+    b2 = synth.fuel_genes(ctx, cfg, copy.copy(b))
+    try:
+        p_used = used.genotype_to_phenotype(b1)
+    except synth.LIBRARY_ERRORS:
+        p_used = None
+    try:
+        p_fresh = fresh.genotype_to_phenotype(b2)
+    except synth.LIBRARY_ERRORS:
+        p_fresh = None
+    ctx.reached()
+    ctx.require((p_used is None) == (p_fresh is None), "purity:mapping-depends-on-the-representation-object's-history", lambda: {"used_failed": p_used is None, "fresh_failed": p_fresh is None, "first_mapping_failed": first_failed})
+    if p_used is not None:
+        ctx.require(OT.struct_eq(p_used, p_fresh), "purity:mapping-depends-on-the-representation-object's-history", lambda: {"used": OT.show(p_used), "fresh": OT.show(p_fresh), "first_mapping_failed": first_failed})
+
+
 def _tags_last(self):
     return self.ctx.tags[-1] if self.ctx.tags else None
 
@@ -125,7 +159,7 @@ def h_individual(ctx: Ctx, cfg):
     ctx.require(a is b, "purity:individual-phenotype-not-cached")
 
 
-HARNESSES = {"pure": h_pure, "individual": h_individual}
+HARNESSES = {"pure": h_pure, "individual": h_individual, "fresh_vs_used": h_fresh_vs_used}
 
 
 def obligations(tier: str):
@@ -157,6 +191,9 @@ def obligations(tier: str):
         if T or rep == "dsge":
             add(f"{rep}_f0_crossed", fixture="f0", rep=rep, decider="grow", max_depth=2 if rep != "dsge" else 3, gene_length=3 if rep == "ge" else 2, ops=["crossover"])
         add(f"{rep}_individual_f1", h="individual", fixture="f1", rep=rep, decider="grow", max_depth=2 if rep != "dsge" else 3, gene_length=gl)
+    add("stack_fresh_vs_used_f0", h="fresh_vs_used", fixture="f0", rep="stack", gene_length=3, failures_limit=1, gene_fuel=6, timeout=250)
+    add("ge_fresh_vs_used_f1", h="fresh_vs_used", fixture="f1", rep="ge", decider="pi", max_depth=3, gene_length=4)
+    add("sge_fresh_vs_used_f0", h="fresh_vs_used", fixture="f0", rep="sge", decider="grow", max_depth=2, gene_length=1)
     add("stack_f1", fixture="f1", rep="stack", gene_length=3 if not T else 4, failures_limit=1, gene_fuel=8 if not T else 12, timeout=150)
     add("stack_f1p_postponed_annotations", fixture="f1p", rep="stack", gene_length=3 if not T else 4, failures_limit=1, gene_fuel=8 if not T else 12, timeout=150)
     add("ge_f1p_postponed_annotations", fixture="f1p", rep="ge", decider="grow", max_depth=2, gene_length=4)
